@@ -303,3 +303,49 @@ def c_refit(ctx, case):
         ctx.discard("empty cluster")
     ctx.close(m.centroids_, fresh.centroids_, "centroids after training again vs fresh machine", rtol=0, atol=0)
     ctx.close(m.average_min_distance, fresh.average_min_distance, "criterion after training again vs fresh machine", rtol=0, atol=0)
+
+
+def g_rows(draw):
+    c = gen.big_rows_case(draw)
+    c["K"] = gen.integer(draw, 1, 3)
+    c["dask"] = gen.boolean(draw)
+    c["isolate"], c["order_seed"] = gen.boolean(draw), gen.integer(draw, 0, 999)
+    return c
+
+
+@REG.obligation("many_rows", g_rows, quick=12, thorough=200, shard_size=4)
+def c_rows(ctx, case):
+    """Thousands of rows (1e3 .. 7e4, in memory or in a few large Dask chunks, so that any internal batching of a
+    block is exercised): centroids after each iteration are the means of the rows nearest to their predecessors and
+    the reported criterion is the mean squared distance for the centroids entering the last iteration."""
+    from bob.learn.em import KMeansMachine
+
+    from vf import sched
+
+    X, init = gen.big_rows(case)
+    n, k = X.shape[0], init.shape[0]
+    sc = float(np.abs(X).max())
+    spread = float(np.abs(X - X.mean(axis=0)).max()) + 1e-300
+    ctx.note(max(case["chunks"]) > 4096 or not case["dask"], "n>%d" % (10 ** int(np.log10(n))),
+             "dask" if case["dask"] else "numpy")
+    cur = np.array(init, dtype=float)
+    for j in range(1, int(case["K"]) + 1):
+        m = KMeansMachine(k, init_method=np.array(init, copy=True), max_iter=j, convergence_threshold=None)
+        if case["dask"]:
+            with sched.owned("random", int(case["order_seed"]), bool(case["isolate"])):
+                m.fit(sut.dask_rows(X, case["chunks"]))
+        else:
+            m.fit(X)
+        D = ((X[None, :, :] - cur[:, None, :]) ** 2).sum(axis=2)
+        srt = np.sort(D, axis=0)
+        if ((srt[1] - srt[0]) / np.maximum(srt[1], 1e-300)).min() < 1e-9:
+            ctx.discard("near-tie")
+        lab = D.argmin(axis=0)
+        if len(np.unique(lab)) < k:
+            ctx.discard("empty cluster")
+        new = np.stack([X[lab == i].mean(axis=0) for i in range(k)])
+        ctx.close(m.centroids_, new, "centroid = mean of its nearest rows (iteration %d, many rows)" % j, rtol=1e-9,
+                  atol=1e-10 * spread)
+        ctx.close(m.average_min_distance, D.min(axis=0).mean(), "average_min_distance after %d iteration(s), many rows" % j,
+                  rtol=1e-9, atol=64 * np.finfo(float).eps * sc * sc)
+        cur = new
